@@ -917,17 +917,30 @@ def guarded(n, parents):
 
 UNSIGNED_SUB = {
     # (function, "lhs Sub rhs" as printed): why lhs >= rhs
-    ("error::write_source_line_from_file_at", "((line Add 1) Sub start_line)"): "start_line = max(line - 2 (saturating), 1) <= line + 1",
-    ("error::write_source_line_from_file_at", "(start_line Sub 1)"): "start_line = max(.., 1) >= 1",
-    ("error::write_source_line_from_stdlib", "((line Add 1) Sub start_line)"): "start_line = max(line - 2 (saturating), 1) <= line + 1",
-    ("error::write_source_line_from_stdlib", "(start_line Sub 1)"): "start_line = max(.., 1) >= 1",
-    ("error::write_source_span_at", "(span.col_end Sub span.col_start)"):
+    ("error::write_source_line_from_file_at", "(($1 Add 1) Sub $2)"): "start_line = max(line - 2 (saturating), 1) <= line + 1",
+    ("error::write_source_line_from_file_at", "($1 Sub 1)"): "start_line = max(.., 1) >= 1",
+    ("error::write_source_line_from_stdlib", "(($1 Add 1) Sub $2)"): "start_line = max(line - 2 (saturating), 1) <= line + 1",
+    ("error::write_source_line_from_stdlib", "($1 Sub 1)"): "start_line = max(.., 1) >= 1",
+    ("error::write_source_span_at", "($1.col_end Sub $1.col_start)"):
         "a span's columns are both measured from the same last_newline and the token's byte range has start <= end (C17 UNIT)",
-    ("sylt_tokenizer::string_to_tokens", "(char_at_byte[byte_range.start].unwrap() Sub last_newline)"):
+    ("sylt_tokenizer::string_to_tokens", "($1[$2.start].unwrap() Sub $3)"):
         "last_newline is the character index of a newline met before this token",
-    ("sylt_tokenizer::string_to_tokens", "(char_at_byte[byte_range.end].unwrap() Sub last_newline)"):
+    ("sylt_tokenizer::string_to_tokens", "($1[$2.end].unwrap() Sub $3)"):
         "last_newline is the character index of a newline met before this token",
 }
+
+
+def _shape(n):
+    """pp() of an expression with local variable names replaced by $1, $2 .. in order of first appearance, so that the
+    key of a site survives a rename of its locals (field and method names stay)"""
+    import copy
+    m = copy.deepcopy(n)
+    order = {}
+    for x in nodes(m, "Path"):
+        if x.get("res") == "Local" and x.get("name") != "self":
+            order.setdefault(x["hid"], "$%d" % (len(order) + 1))
+            x["name"] = order[x["hid"]]
+    return re.sub(r"\s+", " ", pp(m))
 
 
 def unsigned_sub(F, rep):
@@ -947,11 +960,11 @@ def unsigned_sub(F, rep):
             if not ty or not any(t in ty for t in ("usize", "u8", "u16", "u32", "u64")):
                 continue
             n += 1
-            key = (last(fn["_path"], 2), re.sub(r"\s+", " ", pp(b)))
+            key = (last(fn["_path"], 2), _shape(b))
             seen.add(key)
             why = UNSIGNED_SUB.get(key)
             ok = why is not None
-            if ok and "start_line" in key[1]:
+            if ok and key[0].startswith("error::write_source_line"):
                 # the reason rests on how start_line is computed: check it
                 src = re.sub(r"\s+", " ", pp(fn_body(fn)))
                 ok = "saturating_sub(2)" in src and ".max(1)" in src
@@ -960,7 +973,7 @@ def unsigned_sub(F, rep):
                    ("`%s` in %s is an unsigned subtraction with no guard and no invariant that every writer of its operands "
                     "keeps%s" % (key[1], key[0], ": Context::prev() moves `curr` backwards while `last_statement` stays, so `curr` "
                                  "can end up below it (`loop c do .. end end` panics with `attempt to subtract with overflow`)"
-                                 if "last_statement" in key[1] else "")), line_of(b))
+                                 if "last_statement" in pp(b) else "")), line_of(b))
     rep.floor("UNSIGNED-SUB", "unsigned subtractions", n, 7)
 
 
